@@ -172,7 +172,7 @@ def build(term, sp='class'):
     if o == 'Look':
         cls_, meth = LOOK[(term[1], term[2])]
         assertions = [B(a) for a in term[4][1:]]
-        if sp == 'class':
+        if sp == 'class' or not assertions:          # "too few arguments" only exists in the class form
             return cls_(B(term[3]), *assertions)
         r = R(term[3])
         for a in assertions:
